@@ -92,7 +92,7 @@ def corpus_types(facts):
     return [t for t in facts.corpus_meta.get("types", []) if not t.get("generic")]
 
 
-@rule("W5", ["C01", "C02", "C03", "C18", "C10"], floor=250, doc="derived Serialize/Deserialize of every corpus definition, at every version "
+@rule("W5", ["C01", "C02", "C05", "C03", "C18", "C10"], floor=250, doc="derived Serialize/Deserialize of every corpus definition, at every version "
       "class and both Packed outcomes, produce exactly the documented field sequence (declaration order, version ranges, "
       "discriminant = variant index in the documented width)")
 def w5(facts, tier):
@@ -138,7 +138,7 @@ def w5(facts, tier):
                     ok, info = lang_equal(W, lr, mr, v, g)
                 if ok is not True and bad is None:
                     bad = ("reader", v, pk, info, lr, mr)
-        props = ["C01", "C02"] + (["C03", "C18", "C10"] if m.get("family", "").startswith("EVO") or cur > 0 else [])
+        props = ["C01", "C02", "C05"] + (["C03", "C18", "C10"] if m.get("family", "").startswith("EVO") or cur > 0 else [])
         if bad is None:
             yield ob(props, "W5", ty, "pass", where(wf), f"writer and reader = documented sequence in {n_env} environments",
                      program=ty, environments=n_env)
@@ -280,7 +280,7 @@ def w6(facts, tier):
 # H1 (C03): the reader of every later definition, at file version k, consumes what the version-k definition wrote
 # H2 (C18): the writer of a later definition, told to write version k, emits the version-k layout
 
-@rule("H1", ["C03"], floor=80, doc="for every evolution history and every pair k <= j: the reader derived from the version-j definition, "
+@rule("H1", ["C03", "C05"], floor=80, doc="for every evolution history and every pair k <= j: the reader derived from the version-j definition, "
       "specialised to file version k, consumes exactly the language the version-k definition's writer produces (= the timeline model)")
 def h1(facts, tier):
     W = wire.WireAnalysis(facts)
@@ -314,10 +314,10 @@ def h1(facts, tier):
                     bad = (k, j, f"reader of the version-{j} definition at file version {k} does not consume the version-{k} layout", lr, mr)
         key = h["name"]
         if bad is None:
-            yield ob(["C03"], "H1", key, "pass", "", f"history {h['script']}: {pairs} (saved, loaded) version pairs agree", program=key, pairs=pairs)
+            yield ob(["C03", "C05"], "H1", key, "pass", "", f"history {h['script']}: {pairs} (saved, loaded) version pairs agree", program=key, pairs=pairs)
         else:
             k, j, msg, l, mdl = bad
-            yield ob(["C03"], "H1", key, "violation", "", f"history {h['name']} {h['script']}: {msg}; generated: "
+            yield ob(["C03", "C05"], "H1", key, "violation", "", f"history {h['name']} {h['script']}: {msg}; generated: "
                      f"{rx.show(l)[:200] if l else '-'} ; documented: {rx.show(mdl)[:200] if mdl else '-'}", program=key, saved=k, loaded=j)
 
 
